@@ -78,7 +78,7 @@ def random_network(rng, quick=True, force=None):
     base_head = _r(rng, 60, 110, 2)
     for i in range(n_src):
         if i == 0 or rng.random() < 0.5:
-            if i > 0 and rng.random() < 0.7 or (i == 0 and rng.random() < 0.25 and n >= 3):
+            if i > 0 and rng.random() < 0.7 or (i == 0 and rng.random() < 0.35 and n >= 3):
                 elev = _r(rng, base_head - 25, base_head - 5, 2)
                 nodes.append({"name": "T%d" % i, "type": "tank", "elevation": elev, "init_level": _r(rng, 3, 8, 2),
                               "min_level": 0.0, "max_level": _r(rng, 9, 15, 2), "diameter": _r(rng, 5, 20, 2)})
@@ -209,7 +209,7 @@ def random_network(rng, quick=True, force=None):
     # a valve / pump next to a tank now and then (valves only on junction-junction links inside WNTR's supported set;
     # next to a tank = sharing a junction with a tank pipe, or directly out of the tank for pumps)
     tanks = [nd["name"] for nd in nodes if nd["type"] == "tank"]
-    if tanks and juncs and rng.random() < 0.5:
+    if tanks and juncs and rng.random() < 0.8:
         t = rng.choice(tanks)
         j = rng.choice(juncs)
         r = rng.random()
@@ -339,8 +339,9 @@ def _junc(name, elev, base=0.0, pattern=None):
             "demands": ([{"base": base, "pattern": pattern, "category": None}] if base or pattern else [])}
 
 
-def scenario_network(rng, name):
-    """small directed networks that put one element into the state the random generator rarely reaches"""
+def scenario_network(rng, name, variant=0):
+    """small directed networks that put one element into the state the random generator rarely reaches;
+    `variant` cycles the valve's initial status (0, 1: ACTIVE, 2: OPEN, 3: CLOSED)"""
     pats = {"pat0": [1.0, _r(rng, 0.3, 0.8, 2), _r(rng, 1.2, 1.9, 2), 1.0]}
     curves = {}
     H = _r(rng, 90, 110, 1)
@@ -352,12 +353,12 @@ def scenario_network(rng, name):
         nodes = [{"name": "R0", "type": "reservoir", "head": H, "head_pattern": None},
                  {"name": "R1", "type": "reservoir", "head": round(H - rng.uniform(25, 45), 1), "head_pattern": None},
                  _junc("JA", ea, d1, "pat0"), _junc("JB", eb, d2, "pat0"), _junc("JC", eb, d2 / 2)]
-        links = [_pipe("P1", "R0", "JA", L=_r(rng, 300, 1500, 0), d=rng.choice([0.15, 0.2, 0.25])),
+        links = [_pipe("P1", "R0", "JA", L=_r(rng, 300, 1500, 0), d=(rng.choice([0.1, 0.15]) if name == "psv" else rng.choice([0.15, 0.2, 0.25]))),
                  _pipe("P2", "JB", "JC", L=150.0, d=0.2),
                  _pipe("P3", "R1", "JC", L=_r(rng, 300, 900, 0), d=0.2, cv=True)]
         vt = name.upper()
         if vt == "PSV":
-            setting = round((H - ea) * rng.uniform(0.85, 0.99), 2)
+            setting = round((H - ea) * rng.uniform(0.9, 0.995), 2)
         elif vt == "PRV":
             setting = round((H - eb) * rng.uniform(0.3, 0.8), 2)
         elif vt == "FCV":
@@ -366,7 +367,7 @@ def scenario_network(rng, name):
             setting = _r(rng, 1, 200, 1)
         links.append({"name": "V1", "type": "valve", "start": "JA", "end": "JB", "valve_type": vt, "diameter": 0.2,
                       "minor_loss": rng.choice([0.0, 2.5]), "setting": setting,
-                      "initial_status": rng.choice(["ACTIVE", "ACTIVE", "ACTIVE", "OPEN", "CLOSED"])})
+                      "initial_status": ["ACTIVE", "ACTIVE", "OPEN", "CLOSED"][variant % 4]})
     elif name == "pump_shutoff":
         # R0 -pump-> J -pipe-> R1 with R1 around the pump's shut-off head
         npts = rng.choice([1, 2, 3])
